@@ -20,6 +20,11 @@ pub struct Snip {
 /// overload signatures, abstract members: functions and methods **without a body**), unusual class members, modern
 /// operators, module forms.  One program each; they are also mixed into recombined programs.
 pub const ODDITIES: &[&str] = &[
+  "class Sq1 extends B { constructor(e) { super(e), this.init(e); } }",
+  "class Sq2 extends B { constructor(e) { super(e) || fail(e); const t = `${this.x}${log(e)}`; } }",
+  "class Sq3 extends B { constructor(e) { super() ? ok(e) : no(e, f(e)); this.m(g(h(e))); } }",
+  "class Sq4 extends B { constructor(e) { if (e) { super(f(e)); } else { super(); } this.m(g(e)), super.n(e); } }",
+  "class Sq5 extends B { constructor(e) { const a = [super(e), mk(e)], o = { k: make(this, e) }; new K(super.x, q(e)); } }",
   "class ñandu_bird {}\ninterface ünit_test {}\nenum π_kind { a_b, ß_c }",
   "type é_t = number;\nnamespace ß_ns { export const q_r = 1; }\nfunction ǆ_f(ñ_p: number) { return ñ_p; }",
   "const 𝒜_b = 1, ｆ_g = 2;\nclass Ünï_Code { ñ_m() {} static é_s = 1; #π_p = 2; }",
@@ -424,6 +429,12 @@ pub fn run(args: &Args) {
       out.count("kind=multi-line-jsx");
       let s = &corpus[ml_jsx[(case_no / 5 + args.seed as usize) % ml_jsx.len()]];
       (s.rule.clone(), s.src.clone())
+    } else if want("C09") && case_no % 9 == 4 {
+      // JSX with an in-file pragma: what stands in front of the pragma comment must not matter
+      use crate::d_cfg::{IMPORTS, JSX_BODIES, PRAGMAS};
+      out.count("kind=jsx-pragma-program");
+      let pr = PRAGMAS[1 + crng.below(PRAGMAS.len() - 1)];
+      ("no-unused-vars".to_string(), format!("{}{}\n{}\n{}\n", pr, IMPORTS[crng.below(IMPORTS.len())], JSX_BODIES[crng.below(JSX_BODIES.len())], JSX_BODIES[crng.below(JSX_BODIES.len())]))
     } else if want("C13") && !props.is_empty() && case_no % 2 == 1 {
       gen_fix_program(&mut crng)
     } else if want("C02") && !props.is_empty() && case_no % 4 == 1 {
@@ -802,7 +813,7 @@ pub fn run(args: &Args) {
       }
     }
 
-    if want("C09") && !src.starts_with("#!") && !src.contains("@jsx") && !src.contains("@ts-") && !src.contains("<reference") {
+    if want("C09") && !src.starts_with("#!") && !src.contains("@ts-") && !src.contains("<reference") {
       let prefixes: [&str; 7] = ["\n", "   ", "/* é😀 */ ", "// x\n", "\n\n/* a */\n", "\n// ünï\n\t", "/**/"];
       for pre in prefixes {
         let s2 = format!("{}{}", pre, src);
